@@ -16,7 +16,7 @@ func init() {
 	}
 	harness.Specs["C06"] = &harness.PropSpec{
 		ID: "C06", Test: "TestC06", Kind: "queue", Level: "fault_enumeration",
-		Quick: 256, Thorough: 1600,
+		Quick: 256, Thorough: 400,
 		Rule: "two parts. (1) clean reopen points: generated producer/consumer histories in which queue and file are closed and reopened after flushes, reader " +
 			"sections and ACKs (24 histories per generated case), each reopen followed by a drain probe: a fresh reader must deliver exactly the flushed un-ACKed " +
 			"events; (2) crash points: generated producer/consumer histories recorded on the " +
